@@ -9,6 +9,78 @@ use std::time::{Duration, Instant};
 
 pub fn stub_now() -> Instant { unsafe { core::mem::zeroed() } }
 
+// ---- contract of Duration::mul_f32, proven on the real std code by the c14_lemma_* harnesses ----
+// all comparisons are done on u64 nanoseconds computed by ONE constant multiplication (secs*1e9+nanos);
+// no u128, no division or modulo of symbolic values (those stall the bit-blaster).
+static mut LOG_D: [u64; 8] = [0; 8];
+static mut LOG_F: [u32; 8] = [0; 8];
+static mut LOG_R: [u64; 8] = [0; 8];
+static mut NLOG: usize = 0;
+pub const SLACK_SHIFT: u32 = super::gen::C14_SLACK_SHIFT;
+pub const BOUND_S: u64 = super::gen::C14_BOUND_S;
+
+pub fn ns_of(d: Duration) -> u64 { d.as_secs() * 1_000_000_000 + d.subsec_nanos() as u64 }
+/// the stated meaning of "at most half": 2r <= d + d*2^-SLACK_SHIFT + 2ns (f32 seconds have a 24-bit mantissa)
+pub fn at_most_half(r_ns: u64, d_ns: u64) -> bool { 2 * r_ns <= d_ns + (d_ns >> SLACK_SHIFT) + 2 }
+
+/// (A) factor 0.5, duration <= BOUND_S seconds: at_most_half(result, d)                      [c14_lemma_half]
+/// (B) same duration, factors 0.75 and 3.0: result(0.75) <= result(3.0)                      [c14_lemma_monotone]
+/// (C) no panic for durations <= 2*BOUND_S+1 seconds and the four factors the engine uses    [c14_lemma_*]
+/// otherwise the result is arbitrary.
+pub fn stub_mul_f32(d: Duration, f: f32) -> Duration {
+    assert!(f == 0.5 || f == 0.033 || f == 0.75 || f == 3.0); // the contract covers these factors only
+    assert!(d.as_secs() <= 2 * BOUND_S + 1);
+    let d_ns = ns_of(d);
+    let rs: u64 = kani::any();
+    let rn: u32 = kani::any();
+    kani::assume(rs <= 8 * BOUND_S + 8 && rn < 1_000_000_000);
+    let r = rs * 1_000_000_000 + rn as u64;
+    if f == 0.5 {
+        assert!(d.as_secs() <= BOUND_S);
+        kani::assume(at_most_half(r, d_ns));
+    }
+    unsafe {
+        let mut i = 0;
+        while i < NLOG {
+            if LOG_D[i] == d_ns {
+                if LOG_F[i] == 0.75f32.to_bits() && f == 3.0 { kani::assume(LOG_R[i] <= r); }
+                if LOG_F[i] == 3.0f32.to_bits() && f == 0.75 { kani::assume(r <= LOG_R[i]); }
+            }
+            i += 1;
+        }
+        assert!(NLOG < 8);
+        LOG_D[NLOG] = d_ns; LOG_F[NLOG] = f.to_bits(); LOG_R[NLOG] = r; NLOG += 1;
+    }
+    Duration::new(rs, rn)
+}
+
+fn any_duration(max_s: u64) -> Duration {
+    let s: u64 = kani::any();
+    let n: u32 = kani::any();
+    kani::assume(s <= max_s && n < 1_000_000_000);
+    Duration::new(s, n)
+}
+
+/// Lemma A on the real std::time::Duration::mul_f32 (any nanosecond-resolution duration <= BOUND_S)
+#[kani::proof]
+pub fn c14_lemma_half() {
+    let d = any_duration(BOUND_S);
+    #[cfg(test)] println!("REPLAY-CASE {{\"secs\":{},\"nanos\":{}}}", d.as_secs(), d.subsec_nanos());
+    let r = d.mul_f32(0.5);
+    assert!(at_most_half(ns_of(r), ns_of(d)));
+    kani::cover!(d.as_secs() > 1000);
+}
+
+/// Lemma B (+ no panic for 0.75 / 3.0 / 0.033) on the real mul_f32
+#[kani::proof]
+pub fn c14_lemma_monotone() {
+    let d = any_duration(2 * BOUND_S + 1);
+    #[cfg(test)] println!("REPLAY-CASE {{\"secs\":{},\"nanos\":{}}}", d.as_secs(), d.subsec_nanos());
+    assert!(d.mul_f32(0.75) <= d.mul_f32(3.0));
+    let _ = d.mul_f32(0.033);
+    kani::cover!(d.as_secs() > 1000);
+}
+
 fn two_kings(white_to_move: bool) -> BPos {
     let mut pcs = [[0u64; 6]; 2];
     pcs[0][5] = 1 << 4;
@@ -16,62 +88,80 @@ fn two_kings(white_to_move: bool) -> BPos {
     BPos { pcs, white_to_move, rights: [[false; 2]; 2], ep: 64 }
 }
 
-fn clocks_case(rem_ms: u64, inc_ms: u64, mtg: Option<u32>, overhead: usize, white: bool, other_ms: Option<u64>, inc_given: bool) {
-    #[cfg(test)] println!("REPLAY-CASE {{\"remaining_ms\":{},\"increment_ms\":{},\"moves_to_go\":{:?},\"overhead_ms\":{},\"white\":{}}}", rem_ms, inc_ms, mtg, overhead, white);
+fn clocks_case(rem: Duration, inc: Duration, mtg: Option<u32>, overhead: usize, white: bool, other: Option<Duration>, inc_given: bool) {
+    #[cfg(test)] println!("REPLAY-CASE {{\"remaining\":\"{:?}\",\"increment\":\"{:?}\",\"moves_to_go\":{:?},\"overhead_ms\":{},\"white\":{}}}", rem, inc, mtg, overhead, white);
     let game = pos::game_of(&two_kings(white));
-    let mine = Some(Duration::from_millis(rem_ms));
-    let other = other_ms.map(Duration::from_millis);
-    let inc = if inc_given { Some(Duration::from_millis(inc_ms)) } else { None };
+    let mine = Some(rem);
+    let incd = if inc_given { Some(inc) } else { None };
     let clocks = if white {
-        Clocks { white_clock: mine, black_clock: other, white_increment: inc, black_increment: None, moves_to_go: mtg }
+        Clocks { white_clock: mine, black_clock: other, white_increment: incd, black_increment: None, moves_to_go: mtg }
     } else {
-        Clocks { white_clock: other, black_clock: mine, white_increment: None, black_increment: inc, moves_to_go: mtg }
+        Clocks { white_clock: other, black_clock: mine, white_increment: None, black_increment: incd, moves_to_go: mtg }
     };
     let options = EngineOptions { hash_size: 1, threads: 1, move_overhead: overhead, syzygy_path: None };
     let tc = TimeControl::Clocks(clocks);
     let (ts, ctl) = TimeStrategy::new(&game, &tc, &options);
     let (soft, hard) = ta::stops(&ts);
     assert!(soft <= hard);
-    // oracle: half of the remaining time after overhead, with the engine's own f32 resolution as slack:
-    // mul_f32 goes through f32 seconds (24-bit mantissa), so "half" carries a relative error of a few 2^-24.
-    let avail_ns: u128 = (rem_ms as u128 - overhead as u128) * 1_000_000;
-    let bound = avail_ns / 2 + (avail_ns >> 21) + 1;
-    assert!(hard.as_nanos() <= bound);
+    // oracle: at most half of the remaining time after overhead (overhead <= remaining/2 by precondition)
+    let avail = rem - Duration::new(0, overhead as u32 * 1_000_000);
+    assert!(at_most_half(ns_of(hard), ns_of(avail)));
     std::mem::forget(ts);
     std::mem::forget(ctl);
     std::mem::forget(game);
 }
 
-/// sudden death / increment: no moves-to-go
-#[kani::proof]
-#[kani::stub(std::time::Instant::now, stub_now)]
-pub fn c14_clocks_no_mtg() {
-    let rem_ms: u64 = kani::any();
-    let inc_ms: u64 = kani::any();
+/// clock values as a GUI sends them: whole milliseconds
+fn any_ms_duration(max_s: u64) -> Duration {
+    let s: u64 = kani::any();
+    let ms: u32 = kani::any();
+    kani::assume(s <= max_s && ms < 1000);
+    Duration::new(s, ms * 1_000_000)
+}
+
+fn clocks_harness(with_mtg: bool) {
+    let rem = any_ms_duration(BOUND_S - 1);
+    let inc = any_ms_duration(BOUND_S - 1);
     let overhead: usize = kani::any();
     let white: bool = kani::any();
     let inc_given: bool = kani::any();
-    kani::assume(rem_ms <= BOUND_MS && inc_ms <= BOUND_MS);
-    kani::assume(overhead <= 1000 && (overhead as u64) * 2 <= rem_ms);
-    kani::cover!(rem_ms > 1_000_000 && inc_ms > 0);
-    clocks_case(rem_ms, inc_ms, None, overhead, white, None, inc_given);
+    let other_given: bool = kani::any();
+    let mtg: u32 = kani::any();
+    kani::assume(mtg >= 1);
+    kani::assume(overhead <= 1000);
+    // overhead of at most half the remaining time
+    let ovh = Duration::from_millis(overhead as u64);
+    kani::assume(ovh <= rem && ovh <= rem - ovh);
+    kani::cover!(rem.as_secs() > 1000 && inc.as_secs() > 0 && overhead > 0);
+    clocks_case(rem, inc, if with_mtg { Some(mtg) } else { None }, overhead, white, if other_given { Some(inc) } else { None }, inc_given);
 }
+
+/// documented contract of Duration / u32 (std): panics iff the divisor is 0, otherwise some duration <= self.
+/// (std's own 64-bit division carries are not the engine's code and stall the bit-blaster)
+pub fn stub_checked_div(d: Duration, rhs: u32) -> Option<Duration> {
+    if rhs == 0 { return None; }
+    let rs: u64 = kani::any();
+    let rn: u32 = kani::any();
+    kani::assume(rn < 1_000_000_000);
+    let r = Duration::new(rs, rn);
+    kani::assume(r <= d);
+    Some(r)
+}
+
+/// sudden death / increment: no moves-to-go
+#[kani::proof]
+#[kani::unwind(9)]
+#[kani::stub(std::time::Instant::now, stub_now)]
+#[kani::stub(std::time::Duration::mul_f32, stub_mul_f32)]
+pub fn c14_clocks_no_mtg() { clocks_harness(false); }
 
 /// classical: moves-to-go of at least one
 #[kani::proof]
+#[kani::unwind(9)]
 #[kani::stub(std::time::Instant::now, stub_now)]
-pub fn c14_clocks_mtg() {
-    let rem_ms: u64 = kani::any();
-    let inc_ms: u64 = kani::any();
-    let mtg: u32 = kani::any();
-    let overhead: usize = kani::any();
-    let white: bool = kani::any();
-    let inc_given: bool = kani::any();
-    kani::assume(rem_ms <= BOUND_MS && inc_ms <= BOUND_MS && mtg >= 1);
-    kani::assume(overhead <= 1000 && (overhead as u64) * 2 <= rem_ms);
-    kani::cover!(rem_ms > 1_000_000 && mtg == 1);
-    clocks_case(rem_ms, inc_ms, Some(mtg), overhead, white, Some(1), inc_given);
-}
+#[kani::stub(std::time::Duration::mul_f32, stub_mul_f32)]
+#[kani::stub(std::time::Duration::checked_div, stub_checked_div)]
+pub fn c14_clocks_mtg() { clocks_harness(true); }
 
 /// fixed move time is used as given; infinite has no limits
 #[kani::proof]
@@ -99,4 +189,3 @@ pub fn c14_exact_and_infinite() {
     std::mem::forget(game);
 }
 
-pub const BOUND_MS: u64 = super::gen::C14_BOUND_MS;
